@@ -153,6 +153,16 @@ def shard(arg) -> E.Tally:
         # itself required to change nothing, so later prefixes are still 'the state reached by the history')
         run_history(t, lines, eav, mine, {"log": rel, "eav": eav, "edit": None, "at": sorted(mine)}, rel)
         t.by["prefixes"] += len(mine)
+    elif kind == "writes":
+        # every distinct request / write frame found anywhere in the repo's logs arrives in mid-history
+        from mc import corpus
+
+        extra = [fr for fr in corpus.distinct_frames() if fr[:2] in ("RQ", " W")]
+        mid = n // 2
+        seg = GC.restamp([("", "045", fr) for fr in extra], lines, mid)
+        hist = GC.retime(lines[:mid] + seg + lines[mid:])
+        run_history(t, hist, eav, {mid + len(seg), len(hist) - 1}, {"log": rel, "eav": eav, "edit": "writes"}, f"{rel}[+{len(extra)} RQ/W frames]")
+        t.by["rq_w_frames"] += len(extra)
     else:
         for j, (lab, pos, hist) in enumerate(GC.single_edits(lines, splice_from=None, fields=False)):
             if j % nsh != i or lab.startswith("swap"):
@@ -176,6 +186,10 @@ def plan(quick: bool):
         for eav in (False, True):
             for i in range(nsh):
                 jobs.append(("prefix", rel, eav, i, nsh, quick))
+    for rel in logs:
+        if len(GC.log(rel)) <= 300:
+            for eav in (False, True):
+                jobs.append(("writes", rel, eav, 0, 1, quick))
     shortest = sorted((r for r in logs if "#" not in r), key=lambda r: len(GC.log(r)))[: 3 if quick else 6]
     for rel in shortest:
         n = len(GC.log(rel))
@@ -207,6 +221,8 @@ def replay(rep: dict):
     lines = GC.retime(GC.log(rep["log"]))
     if rep.get("edit") is None:
         run_history(t, lines, rep["eav"], set(rep["at"]), rep, rep["log"])
+    elif rep["edit"] == "writes":
+        t.merge(shard(("writes", rep["log"], rep["eav"], 0, 1, True)))
     else:
         for lab, pos, hist in GC.single_edits(lines, splice_from=None, fields=False):
             if lab == rep["edit"]:
